@@ -144,7 +144,10 @@ CLAIMS = {
             "reference decoder of the pzpr encodings (number16, 4-cell, base-3 circles, border bits, arrow numbers) written in "
             "the checker reads each body back as the same problem; (URL-LEG) util.encode_array / encode_grid_segmentation and "
             "the combinator codecs give identical text; (DK-5/6) writer format strings put width first, the regex reader binds "
-            "group 2 to width and group 3 to height. Not decided: problems outside the evaluated families."
+            "group 2 to width and group 3 to height; (URL-W) the URL writers the module list omits (problem_to_pzv_url of nanro, nurimaze, slalom) "
+            "raise nothing on non-square boards in both orientations, exchange no height/width role (row/column kind analysis incl. a row "
+            "position bounded by the width) and are read back by reference decoders (border bits + number16; wall bits + S/G/circle/triangle "
+            "cells; slalom cell kinds, gate-end black cells, clue section, origin). Not decided: problems outside the evaluated families."
         ),
         note="Trusted: the abstract evaluator; the reference decoders in sa/rules/pzpr_ref.py as a rendering of the published pzpr conventions.",
         technique="static analysis: abstract evaluation of codec pairs + independent reference decoder + format-order scan (ast)",
